@@ -152,7 +152,7 @@ func TestC06(t *testing.T) {
 	enum("enum-full", gen.FullAlphabet(), fullLen)
 	enum("enum-reduced", gen.ReducedAlphabet(), redLen)
 	enum("enum-bool", gen.BoolAlphabet(), focusLen+1)
-	enum("enum-range", gen.RangeAlphabet(), focusLen+1)
+	enum("enum-range", gen.RangeAlphabet(), focusLen+map[bool]int{false: 0, true: 1}[cfg.Thorough()])
 	enum("enum-unary", gen.UnaryAlphabet(), focusLen)
 
 	dfGen := rapid.SampledFrom([]string{"", "", "dflt", "my field"})
